@@ -180,6 +180,14 @@ func (s *Session) RunBlock(p *BlockPlan) (*BlockResult, error) {
 			return nil, fmt.Errorf("prepare: %w", err)
 		}
 		b.Txs = pp.Txs
+		if len(pp.Txs) == 0 {
+			// the application could not build a proposal on a well-behaved engine (not for lack of time: see sim.Chain.Prepare)
+			err := fmt.Errorf("PrepareProposal built no proposal at height %d", h)
+			s.emit(s.LockW, "halt", Ev{"h": h, "err": err.Error()})
+			s.emit(s.RelW, "halt", Ev{"h": h, "err": err.Error()})
+			s.emit(s.BridgeW, "halt", Ev{"h": h, "err": err.Error()})
+			return nil, &HaltError{Height: h, Err: err}
+		}
 		if pl, err = s.PayloadOf(pp.Txs[0]); err != nil {
 			return nil, err
 		}
